@@ -98,6 +98,7 @@ type subSpec struct {
 	CloseMode int
 	K         int
 	CloseAt   int
+	StallMs   int // slow-consumer cases: the reader does not read for this long (real time) right after Subscribe
 }
 
 type caseSpec struct {
@@ -116,8 +117,8 @@ func (c *caseSpec) render() map[string]any {
 			e.ID, e.Typ, e.Goroutines, e.PerG, e.StartAt, e.AfterClose, e.Pace, e.CloseAfter))
 	}
 	for _, s := range c.Subs {
-		su = append(su, fmt.Sprintf("sub %d: %s types %v buf %d, subscribes at emit-count %d, pace %d, close %s K=%d closeAt=%d",
-			s.ID, kindName[s.Kind], s.Types, s.Buf, s.StartAt, s.Pace, closeModeName[s.CloseMode], s.K, s.CloseAt))
+		su = append(su, fmt.Sprintf("sub %d: %s types %v buf %d, subscribes at emit-count %d, pace %d, close %s K=%d closeAt=%d stallMs=%d",
+			s.ID, kindName[s.Kind], s.Types, s.Buf, s.StartAt, s.Pace, closeModeName[s.CloseMode], s.K, s.CloseAt, s.StallMs))
 	}
 	return map[string]any{"case": c.Idx, "gomaxprocs": c.Procs, "types": c.NTypes, "stateful": c.Stateful, "emitters": em, "subscribers": su}
 }
@@ -222,6 +223,8 @@ type world struct {
 	structMu sync.RWMutex
 
 	emitted    atomic.Int64
+	longEmits  atomic.Int64 // evidence only: Emit calls that stayed blocked for more than a second of real time
+	timeEmits  bool
 	emFinished []atomic.Bool
 	allEmDone  atomic.Bool
 	dead       atomic.Bool // case abandoned: polling loops must end
@@ -362,6 +365,10 @@ func (w *world) emitterActor(es *emSpec, wg *sync.WaitGroup) {
 				rec := emission{Em: es.ID, Seq: int(seq.Add(1)), Typ: es.Typ, G: g, Ret: never}
 				evt := mkEvent(es.Typ, rec.Em, rec.Seq)
 				var eerr error
+				var t0 time.Time
+				if w.timeEmits {
+					t0 = time.Now()
+				}
 				rec.Call = w.tick()
 				ok := w.call(kEmit, func() { eerr = em.Emit(evt) })
 				if !ok {
@@ -369,6 +376,9 @@ func (w *world) emitterActor(es *emSpec, wg *sync.WaitGroup) {
 					return
 				}
 				rec.Ret = w.tick()
+				if w.timeEmits && time.Since(t0) > time.Second {
+					w.longEmits.Add(1)
+				}
 				rec.Refused = eerr != nil
 				local = append(local, rec)
 				if eerr != nil {
@@ -504,6 +514,9 @@ func (w *world) subActor(ss *subSpec, closeWG, readWG *sync.WaitGroup) {
 	}
 	if early && ss.K == 0 {
 		trigger()
+	}
+	if ss.StallMs > 0 {
+		time.Sleep(time.Duration(ss.StallMs) * time.Millisecond) // a slow consumer: emits must block, not drop
 	}
 	allSent := w.allSent
 	for {
@@ -644,6 +657,9 @@ func newWorld(r *run.R, spec *caseSpec) *world {
 	nEm := len(spec.Emitters)
 	w.emFinished = make([]atomic.Bool, nEm)
 	w.hist.NTypes = spec.NTypes
+	for _, ss := range spec.Subs {
+		w.timeEmits = w.timeEmits || ss.StallMs > 0
+	}
 	w.hist.Stateful = spec.Stateful
 	w.hist.Emitters = make([]emitterLog, nEm+spec.NTypes)
 	for i, e := range spec.Emitters {
@@ -734,40 +750,45 @@ func TestC15(t *testing.T) {
 
 	oracleSelfCheck(r)
 
-	n := r.Pick(8000, 160000)
+	n := r.Pick(24000, 1200000)
 	if race {
-		n = r.Pick(800, 8000)
+		n = r.Pick(1600, 48000)
 	}
 	generated(r, n, procs0, race)
 	runtime.GOMAXPROCS(procs0)
+	if r.Violations() == 0 || r.Replaying() { // once refuted, do not spend another minute on sleeping cases
+		slowConsumers(r, r.Pick(8, 48))
+	}
+	runtime.GOMAXPROCS(procs0)
 	f9(r)
 
-	if !r.Replaying() {
+	if !r.Replaying() && r.Violations() == 0 {
 		q := func(quick, thorough int) int {
 			if race {
 				return quick / 10
 			}
 			return r.Pick(quick, thorough)
 		}
-		r.Require("events_emitted", q(100000, 2000000))
-		r.Require("events_read", q(100000, 2000000))
-		r.Require("subs_typed", q(3000, 60000))
-		r.Require("subs_multi", q(1000, 20000))
-		r.Require("subs_wild", q(1000, 20000))
-		r.Require("quiescent_subs_fully_compared", q(3000, 60000))
-		r.Require("mandatory_events_checked", q(50000, 1000000))
-		r.Require("gap_obligations_checked", q(50000, 1000000))
-		r.Require("early_close_subs", q(2000, 40000))
-		r.Require("close_overlapping_emit", q(1000, 20000))
-		r.Require("subscribe_overlapping_emit", q(1000, 20000))
-		r.Require("reads_after_close_called", q(300, 6000))
-		r.Require("stateful_replays_seen", q(500, 10000))
-		r.Require("stateful_replay_required_and_checked", q(300, 6000))
-		r.Require("stateful_subscribe_with_concurrent_emit", q(300, 6000))
-		r.Require("reads_with_full_buffer", q(3000, 60000))
-		r.Require("reads_unbuffered", q(10000, 200000))
-		r.Require("emits_refused_after_emitter_close", q(300, 6000))
-		r.Require("emitter_reopened_after_type_had_none_with_live_sub", q(200, 4000))
+		r.Require("events_emitted", q(100000, 5000000))
+		r.Require("events_read", q(100000, 5000000))
+		r.Require("subs_typed", q(3000, 150000))
+		r.Require("subs_multi", q(1000, 50000))
+		r.Require("subs_wild", q(1000, 50000))
+		r.Require("quiescent_subs_fully_compared", q(3000, 150000))
+		r.Require("mandatory_events_checked", q(50000, 2500000))
+		r.Require("gap_obligations_checked", q(50000, 2500000))
+		r.Require("early_close_subs", q(2000, 100000))
+		r.Require("close_overlapping_emit", q(1000, 50000))
+		r.Require("subscribe_overlapping_emit", q(1000, 50000))
+		r.Require("reads_after_close_called", q(300, 15000))
+		r.Require("stateful_replays_seen", q(500, 25000))
+		r.Require("stateful_replay_required_and_checked", q(300, 15000))
+		r.Require("stateful_subscribe_with_concurrent_emit", q(300, 15000))
+		r.Require("reads_with_full_buffer", q(3000, 150000))
+		r.Require("reads_unbuffered", q(10000, 500000))
+		r.Require("emits_refused_after_emitter_close", q(300, 15000))
+		r.Require("emitter_reopened_after_type_had_none_with_live_sub", q(200, 10000))
+		r.Require("slow_consumer_emits_blocked_over_1s", r.Pick(4, 24))
 	}
 }
 
@@ -887,7 +908,7 @@ func generated(r *run.R, n, procs0 int, race bool) {
 		})
 		firstStalls += len(stalled)
 		for _, spec := range stalled {
-			if reruns >= maxRerun || r.TooMany() {
+			if reruns >= maxRerun || r.TooMany() || r.Counter("cases_stalled_twice") >= 1 {
 				r.Inconclusive(fmt.Sprintf("gen/%d", spec.Idx), "watchdog fired; not re-run (re-run limit reached)")
 				continue
 			}
@@ -914,6 +935,76 @@ func generated(r *run.R, n, procs0 int, race bool) {
 			}
 		}
 	}
+}
+
+// slowConsumers: generated scripts in which the first subscriber (typed or wildcard, buffer 0 or 1, on the
+// type of the first emitter, subscribed before anything is emitted) does not read at all for 1.1-1.3 s of
+// real time, so that emits stay blocked past the bus' one-second slow-consumer warning ("an emit blocks
+// rather than drops when a subscriber is slow"). The sleep only shapes the workload; the verdict comes
+// from the same offline oracle.
+func slowConsumers(r *run.R, n int) {
+	var wg sync.WaitGroup
+	for k := 0; k < n && !r.TooMany(); k++ {
+		caseID := fmt.Sprintf("slow/%d", k)
+		if !r.Want(caseID) {
+			continue
+		}
+		spec := genCase(r, 1_000_000+k)
+		spec.Procs = runtime.GOMAXPROCS(0)
+		s0 := &spec.Subs[0]
+		s0.Kind, s0.Types = kindTyped, []int{spec.Emitters[0].Typ}
+		if k%2 == 1 {
+			s0.Kind, s0.Types = kindWild, nil
+		}
+		s0.Buf = k / 2 % 2
+		s0.StartAt = 0
+		s0.StallMs = 1100 + 25*(k%8)
+		if s0.CloseMode == closeTimed {
+			s0.CloseMode = closeFinalSelf
+		}
+		spec.Emitters[0].CloseAfter = 0
+		if spec.Emitters[0].PerG < 3 {
+			spec.Emitters[0].PerG = 3
+		}
+		wg.Add(1)
+		go func() {
+			defer wg.Done()
+			res := runCase(r, spec, 40*time.Second)
+			switch res.status {
+			case "ok":
+				seen := map[string]bool{}
+				for _, f := range res.findings {
+					if !seen[f.Sig] {
+						seen[f.Sig] = true
+						r.Violation(f.Sig, caseID, f.Msg, map[string]any{"script": spec.render(), "all_findings": findingStrings(res.findings), "history": res.w.hist.render()})
+					}
+				}
+				r.Eval(1)
+				r.Count("slow_consumer_cases", 1)
+				r.Count("slow_consumer_emits_blocked_over_1s", int(res.w.longEmits.Load()))
+				r.Count("slow_consumer_mandatory_events_checked", res.stats.mandatoryChecked)
+				if res.w.longEmits.Load() > 0 {
+					r.Nontrivial(caseID)
+				}
+			case "panic":
+				w := res.w
+				r.Violation(panicSig(w.panicKind, w.panicVal), caseID, fmt.Sprintf("%s panicked: %s", w.panicKind, w.panicVal),
+					map[string]any{"script": spec.render(), "panic": w.panicVal, "stacks": eventbusGoroutines(w.panicStack, 12)})
+			case "stall":
+				// decided by a second, solo run below? These cases are few and sleep by design; a stall here is
+				// reported as inconclusive unless it repeats.
+				if res2 := runCase(r, spec, 80*time.Second); res2.status == "stall" {
+					r.Violation("stall:"+res2.stuck, caseID, "slow-consumer script stalled twice; stuck calls: "+res2.stuck,
+						map[string]any{"script": spec.render(), "goroutines": eventbusGoroutines(res2.dump, 40)})
+				} else {
+					r.Inconclusive(caseID, "watchdog fired once, the re-run completed")
+				}
+			default:
+				r.Inconclusive(caseID, "harness error: "+res.stuck)
+			}
+		}()
+	}
+	wg.Wait()
 }
 
 func findingStrings(fs []finding) []string {
@@ -950,12 +1041,20 @@ func f9(r *run.R) {
 		var progress atomic.Int64
 		attempts := r.Pick(30000, 200000)
 		var victim func()
+		guard := func() { // a panic of a bus call is a violation of its own, not a crash of the run
+			if p := recover(); p != nil {
+				stop.Store(true)
+				r.Violation(panicSig("f9-case", fmt.Sprint(p)), caseID, fmt.Sprintf("bus call panicked in the dedicated F9 case (%s): %v", shape, p),
+					map[string]any{"shape": shape, "panic": fmt.Sprint(p), "stacks": eventbusGoroutines(run.Stacks(), 12)})
+			}
+		}
 		switch shape {
 		case "stateful":
 			em, _ := bus.Emitter(new(f9a), eventbus.Stateful)
 			em.Emit(f9a{1}) // retained
 			for i := 0; i < 3; i++ {
 				go func() { // third parties: bus-wide lock, then the stateful type's lock
+					defer guard()
 					for !stop.Load() {
 						if s, err := bus.Subscribe(new(f9a), eventbus.BufSize(1)); err == nil {
 							s.Close()
@@ -974,12 +1073,14 @@ func f9(r *run.R) {
 			attempts = r.Pick(3000, 20000)
 			em, _ := bus.Emitter(new(f9a))
 			go func() { // emits on the first type: blocks on the not yet readable channel holding the type's lock
+				defer guard()
 				for !stop.Load() {
 					em.Emit(f9a{1})
 				}
 			}()
 			for i := 0; i < 3; i++ {
 				go func() { // third parties
+					defer guard()
 					for !stop.Load() {
 						if e, err := bus.Emitter(new(f9a)); err == nil {
 							e.Close()
@@ -996,6 +1097,7 @@ func f9(r *run.R) {
 		done := make(chan struct{})
 		go func() {
 			defer close(done)
+			defer guard()
 			for i := 0; i < attempts && !stop.Load(); i++ {
 				victim()
 				progress.Add(1)
